@@ -174,6 +174,9 @@ func hsGood(b *bctx) error { return hsGoodRun(b, nil, nil) }
 // hsGoodRun: the genuine client handshake (st nil = a regular request); trailing is appended inside the plaintext.
 func hsGoodRun(b *bctx, st *hsState, trailing []byte) error {
 	key := mustKey(anonKeyHex)
+	if b.c.key != nil { // (the bystander of the receive-side layer has its own identity)
+		key = b.c.key
+	}
 	if st == nil {
 		st = b.makeAuthReq(key)
 	}
